@@ -158,13 +158,19 @@ Section Delta.
   Qed.
 End Delta.
 
-Definition raw_allowed (cfg : mconfig) : list num := match c_allowed cfg with Some l => l | None => default_allowed_numbers end.
-Definition add_allowed (a : num) (cfg : mconfig) : mconfig := mk_cfg (Some (a :: raw_allowed cfg)) (c_max_small cfg).
+(* a is added to the list in effect (at the top level; a language section keeps its other keys) *)
+Definition add_allowed (a : num) (cfg : mconfig) : mconfig :=
+  mk_cfg (Some (a :: raw_allowed cfg)) (c_max_small cfg) (option_map (fun s => (None, snd s)) (c_lang cfg)).
 
 (* adding a value removes exactly the violations naming it *)
 Theorem allowed_add lg q cfg a f :
   report lg q (add_allowed a cfg) f = filter (keep (norm a)) (report lg q cfg f).
-Proof. apply allowed_delta; [|reflexivity]. intros v. reflexivity. Qed.
+Proof.
+  apply allowed_delta.
+  - intros v. unfold allowed. rewrite (raw_allowed_pick (add_allowed a cfg)). unfold add_allowed. cbn [c_lang c_allowed].
+    destruct (c_lang cfg) as [[la lm]|]; reflexivity.
+  - unfold max_small, add_allowed. cbn [c_lang c_max_small]. destruct (c_lang cfg) as [[la lm]|]; reflexivity.
+Qed.
 
 (* removing a value: for any configuration cfg' whose allowed set is that of cfg without a, the reports under cfg
    are those under cfg' minus the ones naming a, i.e. removal adds exactly the violations naming a *)
